@@ -28,6 +28,7 @@ def main():
     ms = exact.catalogue(rng, Ms=(1, 2, 3) if not thorough else (1, 2, 3, 4), per_M=6 if not thorough else 12)
     for k in range(6 if not thorough else 40):
         ms.append(exact.random_model(rng, "R%d" % k, rng.choice([2, 3] if not thorough else [2, 3, 4])))
+    ms += exact.with_phases(rng, ms)[: (5 if not thorough else 30)]
     for m in ms:
         M = m["M"]
         m["avg"] = [[i, j] for i in range(M) for j in range(M)]
@@ -44,7 +45,7 @@ def main():
         scen.append(exact.scenario(m, pred[m["id"]], queries=qs))
     # general models, relational part
     gen = [dict(g, queries=[{"q": "dm", "beta": b, "tag": b, "averages": False} for b in ("0.5", "20.0")]) for g in models.catalogue(thorough)]
-    recs, crashed = pv.run_driver_resilient(exe, scen + gen, timeout=3000)
+    recs, crashed = exact.run_split(exe, scen + gen, ms)
     byid = {}
     for r in recs:
         if r.get("e") == "Q":
@@ -65,7 +66,7 @@ def main():
             if r["q"] != "dm":
                 continue
             beta = r.get("tag")
-            what = "model %s beta=%s" % (json.dumps({k: m[k] for k in ("M", "eps", "U", "rot", "bog")}), beta)
+            what = "model %s beta=%s" % (json.dumps({k: m[k] for k in ("M", "eps", "U", "rot", "bog", "ph")}), beta)
             rep = {"model": m, "scenario": sc, "beta": beta}
             if "fail" in r or "ex" in r or "w" not in r:
                 c.violation("%s: density matrix failed: %s" % (what, r.get("fail") or r.get("ex")), rep, cls="exception")
